@@ -228,7 +228,7 @@ m("m17h", "C17", "sqllineage/drawing.py",
 m("m17i", "C17", "sqllineage/utils/helpers.py",
   "            with open(args.f) as f:\n                sql = f.read()\n",
   "            with open(os.path.expanduser(os.path.expandvars(args.f))) as f:\n                sql = f.read()\n",
-  "control-ish: variable expansion at read time but not at check time (no $ in generated paths)", expect="miss",
+  "~ / $VAR expansion at read time but not at check time (a blind spot until round 8: no expandable spelling was generated; now caught through the literal spellings and the HOME seam)",
   more=[("sqllineage/utils/helpers.py", "import logging\n", "import logging\nimport os\n")])
 
 # ---------------------------------------------------------------- C11
@@ -255,4 +255,4 @@ m("m03j", "C03", "sqllineage/core/holders.py",
 m("m11g", "C11", "sqllineage/core/holders.py",
   "    def _get_target_table(self) -> Optional[Union[SubQuery, Table]]:\n        table = None\n        if write_only := self.write.difference(self.read):\n            table = next(iter(write_only))\n",
   "    def _get_target_table(self) -> Optional[Union[SubQuery, Table]]:\n        table = None\n        if write_only := self.write.difference(self.read):\n            table = next(iter(write_only))\n        elif self.write:\n            table = next(iter(self.write))\n",
-  "target table falls back to 'the first' written table when every written table is also read (control: would need a statement form with two written tables that are both read - none found in any dialect)", expect="miss")
+  "target table falls back to 'the first' written table when every written table is also read (thought to be an equivalent control - it would need two written tables that are both read - until the round-8 generators reached it: a self-referencing CTAS now gets a target, its unqualified / lateral-alias columns are then resolved, and the answer depends on the hash seed)")
